@@ -51,6 +51,7 @@ def run(ctx):
     chk.not_decided = ['durability of the directory entry itself (no fsync of the directory is required)',
                        'which bytes are written (C18, C19)']
     prog = ctx.program(facts.AS_CONFIGURED, 'cli')
+    PROG20[0] = prog
     cg = ctx.callgraph(facts.AS_CONFIGURED, 'cli')
     if prog.func(PATH_GETTER) is None:
         raise AnalysisBroken('anchor %s not found in the CLI' % PATH_GETTER)
@@ -120,6 +121,40 @@ def run(ctx):
         if n < need and not any(not o.ok for o in chk.obls):
             raise AnalysisBroken('rule %s produced %d instance(s) for the writer %s, expected >= %d' % (
                 rid, n, W.name, need))
+
+
+PROG20 = [None]
+
+
+def _unlinks_param(t, pid):
+    """every way through the (no-return) helper t unlinks the path given as parameter pid - except where the helper
+    has found that parameter to be NULL, which the temp path array at the call site never is"""
+    def null_side(b):
+        c = strip(b.cond) if b.cond is not None else None
+        if c is None or len(b.all_succs) != 2:
+            return None
+        neg = False
+        while c is not None and c.k == 'UnaryOperator' and c.get('op') == '!':
+            neg = not neg
+            c = strip(c.ch[0])
+        if c is None:
+            return None
+        if c.k == 'BinaryOperator' and c.get('op') in ('==', '!='):
+            l, r = strip(c.ch[0]), strip(c.ch[1])
+            for x, y in ((l, r), (r, l)):
+                if (decl_of(x) or {}).get('id') == pid and (y.get('null') or y.get('v') == 0):
+                    isnull_true = (c['op'] == '==') != neg
+                    return 0 if isnull_true else 1
+            return None
+        if (decl_of(c) or {}).get('id') == pid:
+            return 0 if neg else 1
+        return None
+    is_unl = lambda e: e.k == 'CallExpr' and e.get('callee') in ('unlink', 'remove') and (decl_of(arg(e, 0)) or {}).get('id') == pid
+    visited, ex = C.reach(t, (t.entry, 0), is_unl, edge_filter=lambda b, si: null_side(b) != si)
+    if ex:
+        return False
+    # a no-return call reached without the unlink
+    return not any(t.nodes[v].k == 'CallExpr' and t.nodes[v].get('calleeNoReturn') for v in visited)
 
 
 def check_writer(ctx, W, R, pt):
@@ -340,7 +375,16 @@ def check_writer(ctx, W, R, pt):
                     stop_blocks.add((b.id, 1 - fail_idx))
 
         def is_unlink(e):
-            return e.k == 'CallExpr' and e.get('callee') in ('unlink', 'remove') and is_tmp(arg(e, 0))
+            if e.k != 'CallExpr':
+                return False
+            if e.get('callee') in ('unlink', 'remove') and is_tmp(arg(e, 0)):
+                return True
+            # a file-local helper that is handed the temp path and unlinks it on every way through
+            t_ = PROG20[0].func(e.get('callee'), W.tu) if PROG20[0] is not None and e.get('callee') else None
+            if t_ is not None and t_.internal and not t_.cfg_error:
+                pidx = [i for i, a in enumerate(e.ch[1:]) if a is not None and is_tmp(a)]
+                return bool(pidx) and all(_unlinks_param(t_, t_.params[i]['id']) for i in pidx if i < len(t_.params))
+            return False
 
         leaks = []
         for st0 in starts:
@@ -349,6 +393,12 @@ def check_writer(ctx, W, R, pt):
             for v in visited:
                 n = W.nodes[v]
                 if n.k == 'CallExpr' and n.get('calleeNoReturn'):
+                    # a file-local "give up" helper that is handed the temp path and unlinks it on every way to its own end
+                    t_ = PROG20[0].func(n.get('callee'), W.tu) if PROG20[0] is not None and n.get('callee') else None
+                    if t_ is not None and t_.internal and not t_.cfg_error:
+                        pidx = [i for i, a in enumerate(n.ch[1:]) if a is not None and is_tmp(a)]
+                        if pidx and all(_unlinks_param(t_, t_.params[i]['id']) for i in pidx if i < len(t_.params)):
+                            continue
                     leaks.append(n)
             if ex:
                 leaks.append(None)
